@@ -12,6 +12,7 @@ mkdir -p bin work evidence replays
 ./bin/factgen /repo > lean/Bmc/Gen/Facts.lean.tmp && mv lean/Bmc/Gen/Facts.lean.tmp lean/Bmc/Gen/Facts.lean
 ./bin/ssagen /repo > lean/Bmc/Gen/Prims.lean.tmp && mv lean/Bmc/Gen/Prims.lean.tmp lean/Bmc/Gen/Prims.lean
 ./bin/decgen /repo > lean/Bmc/Gen/Dec.lean.tmp && mv lean/Bmc/Gen/Dec.lean.tmp lean/Bmc/Gen/Dec.lean
+./bin/decgen -orch /repo > lean/Bmc/Gen/Orch.lean.tmp && mv lean/Bmc/Gen/Orch.lean.tmp lean/Bmc/Gen/Orch.lean
 ./bin/encgen /repo > lean/Bmc/Gen/Enc.lean.tmp && mv lean/Bmc/Gen/Enc.lean.tmp lean/Bmc/Gen/Enc.lean
 ./bin/keygen /repo > lean/Bmc/Gen/Keys.lean.tmp && mv lean/Bmc/Gen/Keys.lean.tmp lean/Bmc/Gen/Keys.lean
 rm -f work/gen.hash
